@@ -343,8 +343,9 @@ impl Session {
             // Operations whose result the properties describe by a relation, not as a function (the text colour
             // is *a* black or white of sufficient contrast; the 8-bit code is *an* entry less than 1.0 from the
             // closest): an implementation may legitimately choose differently from the model. The direct
-            // oracles of those relations decide; the difference is only counted.
-            if p.op.starts_with("adj textcolor ") || p.op.starts_with("ansi to ") {
+            // oracles of those relations decide; the difference is only counted. `to_gray` likewise: *an* achromatic
+            // colour within one gray step of the luminance, idempotent, fixing grays, keeping alpha.
+            if p.op.starts_with("adj textcolor ") || p.op.starts_with("adj togray ") || p.op.starts_with("ansi to ") {
                 self.tag("relational-op:model-chose-differently");
                 return;
             }
